@@ -626,6 +626,13 @@ func TestVerif_C26(t *testing.T) {
 	defer c26ForceRemove(w.top)
 	defer func() { r.Add("full_snapshots", w.slow); r.Add("archive_uploads_destination_restored", w.fast) }()
 
+	var hrep c26HistCase
+	if r.ReplayInto(&hrep) && hrep.Hist {
+		if err := w.checkHist(r, &hrep); err != nil {
+			r.HarnessError("%v", err)
+		}
+		return
+	}
 	var rep c26Case
 	if r.ReplayInto(&rep) {
 		if err := w.check(r, &rep); err != nil {
@@ -692,6 +699,8 @@ func TestVerif_C26(t *testing.T) {
 			}
 		}
 	}
+	// family "histories on one handler" (history_test.go)
+	w.runHistories(r)
 	// family "hostile directory-upload archives" (archive_test.go)
 	w.runArchives(r)
 }
